@@ -1397,12 +1397,10 @@ theorem sstep_parseConditional (S : Shift re1 re2 k) {f c : Nat} (h : DescSim re
   obtain ⟨end_, child, st2⟩ := r
   simp only [sh3]
   refine SimB.ite (by simp) (fun _ => ?_) (fun _ => ?_)
-  · cases condition with
-    | backref g =>
-      simp only
-      refine SimB.bind (sim_checkForCloseParen S _ end_) (fun after => ?_)
+  · split
+    · refine SimB.bind (sim_checkForCloseParen S _ end_) (fun after => ?_)
       exact SimB.ok3 rfl
-    | _ => exact SimB.err _ _
+    · exact SimB.err _ _
   · refine SimB.bind (sh := id) ?_ (fun br => ?_)
     · exact sim_condBranches k child st2.lastReHadAlt
     try dsimp only [id]
